@@ -112,6 +112,8 @@ def run(tier):
         chk.clause('C20.D1', 'R3 oracle of the bridge per request')
         chk.clause('C20.D2', 'R10 caller arrays never written')
         kernels.run_factor(chk, 'C20.kern', prog, cfgname)
+        from ..rules import r4_path
+        r4_path.run(chk, 'C20.D3.path', prog, cfgname, units_prefix=('FORTRAN/',))
         n = 0
         for p in _drv.PRECS:
             n += bridge_oracle(chk, 'C20.D1', prog, eff, p, cfgname)
